@@ -149,6 +149,103 @@ fn check_pair(t: &mut Tally, x: &[u8], a: F, b: F, doc: Option<&Doc>, family: &s
 	}
 }
 
+
+/// CLI stage: xt's own outputs, stored as files named by their format's extension, fed back to ONE
+/// invocation of the binary in every ordered pair of formats: the result must be the concatenation of
+/// what each file gives alone (and a file in the target's own format must come back unchanged).
+fn cli_stage(tally: &mut Tally, docs: &[Doc]) {
+	use crate::proc::{self, Exit, Spawn, WorkDir};
+	proc::assert_bins();
+	let w = WorkDir::new("c06-cli");
+	let dir = w.path().to_path_buf();
+	let mut picks: Vec<&Doc> = vec![];
+	for fam in ["tree", "ints", "strings", "depth", "floats"] {
+		picks.extend(docs.iter().filter(|d| d.family == fam && d.common && matches!(d.v, V::Map(_)) && d.v.dump().len() < 4000 && F::ALL.iter().all(|&f| representable(&d.v, f))).take(2));
+	}
+	let run = |argv: &[String]| {
+		let args: Vec<&str> = argv.iter().map(|s| s.as_str()).collect();
+		proc::run(&Spawn::new(&dir, &args))
+	};
+	// own outputs y[i][f]
+	let mut y: Vec<Vec<Option<String>>> = vec![];
+	for (i, d) in picks.iter().enumerate() {
+		let Some(src) = spell_doc(F::Json, &d.v, Style(0)) else {
+			y.push(vec![None; 4]);
+			continue;
+		};
+		w.write(&format!("src{i}.json"), &src);
+		let mut row = vec![];
+		for f in F::ALL {
+			let o = run(&[format!("-t{}", f.letter()), format!("src{i}.json")]);
+			if o.exit == Exit::Code(0) {
+				let name = format!("own{i}.{}", f.name());
+				w.write(&name, &o.stdout);
+				row.push(Some(name));
+			} else {
+				row.push(None);
+			}
+		}
+		y.push(row);
+	}
+	let n = picks.len();
+	if n < 4 {
+		return;
+	}
+	let case_of = |argv: &[String], want: &[u8]| {
+		let files: Vec<Value> = argv[1..].iter().map(|nm| json!({"name": nm, "hex": hex(&std::fs::read(dir.join(nm)).unwrap_or_default())})).collect();
+		json!({"kind": "cli-own-output", "argv": argv, "files": files, "expected_hex": hex(want)})
+	};
+	// alone[(i, f, b)]
+	let mut alone = std::collections::HashMap::new();
+	for i in 0..n {
+		for (fi, f) in F::ALL.iter().enumerate() {
+			let Some(name) = &y[i][fi] else { continue };
+			for b in F::ALL {
+				let argv = vec![format!("-t{}", b.letter()), name.clone()];
+				let o = run(&argv);
+				tally.evaluations += 1;
+				tally.count("cli-own-output-alone");
+				if *f == b {
+					let own = std::fs::read(dir.join(name)).unwrap();
+					if o.exit != Exit::Code(0) || o.stdout != own {
+						tally.bad(format!("cli-own-output-not-a-fixed-point:{}", b.name()), case_of(&argv, &own), format!("xt {argv:?}: {} but the file holds {}", o.brief(), show(&own)));
+					}
+				}
+				if o.exit == Exit::Code(0) {
+					alone.insert((i, fi, b), o.stdout);
+				}
+			}
+		}
+	}
+	let mut jobs: Vec<(Vec<String>, Vec<u8>, F)> = vec![];
+	for b in [F::Json, F::Msgpack, F::Yaml] {
+		for k in 0..4 {
+			for l in 0..4 {
+				for i in 0..n {
+					let j = (i + 1 + k + l) % n;
+					let (Some(na), Some(nb)) = (&y[i][k], &y[j][l]) else { continue };
+					let (Some(a1), Some(a2)) = (alone.get(&(i, k, b)), alone.get(&(j, l, b))) else { continue };
+					let mut want = a1.clone();
+					want.extend_from_slice(a2);
+					jobs.push((vec![format!("-t{}", b.letter()), na.clone(), nb.clone()], want, b));
+				}
+			}
+		}
+	}
+	let results = par_fold(&jobs, Tally::default, |t, _, (argv, want, b)| {
+		let o = run(argv);
+		t.evaluations += 1;
+		t.count("cli-own-output-pairs");
+		t.nontrivial(fnv(&[argv.join(" ").as_bytes()]));
+		if o.exit != Exit::Code(0) || &o.stdout != want {
+			t.bad(format!("cli-own-outputs-together-differ-from-alone:{}", b.name()), case_of(argv, want), format!("xt {argv:?}: {} but the two files alone give {}", o.brief(), show(want)));
+		}
+	});
+	for r in results {
+		tally.merge(r);
+	}
+}
+
 pub fn run(ctx: &Ctx) -> CheckOutput {
 	let thorough = ctx.thorough();
 	let docs = documents(thorough);
@@ -178,8 +275,9 @@ pub fn run(ctx: &Ctx) -> CheckOutput {
 		}
 		tally.count("family:toml-datetime");
 	}
+	cli_stage(&mut tally, &docs);
 	let req = |k: &str| (k.to_string(), *tally.counters.get(k).unwrap_or(&0));
-	let mut required = vec![req("round-trips-compared"), req("family:extension"), req("family:toml-datetime"), req("family:buffer-straddle")];
+	let mut required = vec![req("cli-own-output-pairs"), req("round-trips-compared"), req("family:extension"), req("family:toml-datetime"), req("family:buffer-straddle")];
 	for s in F::ALL {
 		for t in F::ALL {
 			required.push(req(&format!("pair:{}->{}", s.name(), t.name())));
@@ -188,7 +286,7 @@ pub fn run(ctx: &Ctx) -> CheckOutput {
 	CheckOutput {
 		level: "exploration",
 		tally,
-		rule: "documents: the C01 corpus + collections sized around every length-header/size-hint boundary (15..65537) + strings that put multi-byte characters across 8 KiB/16 KiB/24 KiB buffer edges + extensions (nulls, non-string and composite keys, binary, f32, non-finite floats, null-leaf depth chains, TOML date-times); for every ordered pair (A,B) and two spellings: y = xt(A->B)(x); whenever that succeeds, xt(B->B)(y) must reproduce y byte for byte from slice, reader(all) and reader(3-byte reads), the first hop must not depend on the supply mode, and for common-model documents xt(B->A)(y) must equal xt(A->A)(x) byte for byte (B = TOML: xt(A->A) of the table-reordered value). Non-trivial = first hop succeeded; distinct by (input, A, B).".into(),
+		rule: "documents: the C01 corpus + collections sized around every length-header/size-hint boundary (15..65537) + strings that put multi-byte characters across 8 KiB/16 KiB/24 KiB buffer edges + extensions (nulls, non-string and composite keys, binary, f32, non-finite floats, null-leaf depth chains, TOML date-times); for every ordered pair (A,B) and two spellings: y = xt(A->B)(x); whenever that succeeds, xt(B->B)(y) must reproduce y byte for byte from slice, reader(all) and reader(3-byte reads), the first hop must not depend on the supply mode, and for common-model documents xt(B->A)(y) must equal xt(A->A)(x) byte for byte (B = TOML: xt(A->A) of the table-reordered value). CLI stage: for 10 small documents the binary's own output in each format is stored as a file named by extension; each file alone must come back unchanged in its own format, and every ordered pair of formats given to ONE invocation must produce the concatenation of what the two files give alone (3 streaming targets). Non-trivial = first hop succeeded; distinct by (input, A, B).".into(),
 		exhaustive: true,
 		bounds: json!({"pairs": 16, "styles_per_source": 2}),
 		assumptions: vec!["the oracle is metamorphic (xt against itself); no external reader is trusted here".into()],
@@ -198,6 +296,18 @@ pub fn run(ctx: &Ctx) -> CheckOutput {
 }
 
 pub fn replay(case: &Value) -> Option<String> {
+	if case["kind"] == "cli-own-output" {
+		crate::proc::assert_bins();
+		let w = crate::proc::WorkDir::new("c06-replay");
+		for f in case["files"].as_array().unwrap() {
+			w.write(f["name"].as_str().unwrap(), &unhex(f["hex"].as_str().unwrap()));
+		}
+		let argv: Vec<String> = case["argv"].as_array().unwrap().iter().map(|a| a.as_str().unwrap().to_string()).collect();
+		let args: Vec<&str> = argv.iter().map(|s| s.as_str()).collect();
+		let o = crate::proc::run(&crate::proc::Spawn::new(w.path(), &args));
+		let want = unhex(case["expected_hex"].as_str().unwrap());
+		return (o.exit != crate::proc::Exit::Code(0) || o.stdout != want).then(|| format!("{} but expected {}", o.brief(), show(&want)));
+	}
 	let x = unhex(case["input_hex"].as_str().unwrap());
 	let a = F::parse(case["a"].as_str().unwrap()).unwrap();
 	let b = F::parse(case["b"].as_str().unwrap()).unwrap();
